@@ -283,6 +283,18 @@ def served(requests):
 
 # ----------------------------------------------------------------------------------------------
 
+
+def proof_error(pr):
+    """the first coqc error of the build log (file, position, message)"""
+    import re
+    log = pr.get("make_log") or pr.get("log", "")
+    m = re.search(r'File "[^"]+", line \d+, characters [\d-]+:\nError:.*?(?=\n\n|\nmake|\Z)', log, re.S)
+    if m:
+        return m.group(0)[:700]
+    if pr.get("forbidden"):
+        return "forbidden vernacular: %s" % pr["forbidden"][:3]
+    return log[-400:]
+
 def run(c):
     if not std_builds(c, cli=True):
         return
@@ -452,7 +464,7 @@ def run(c):
     if not proved:
         pr = c.proof
         c.report("proof obligations of rocq/Props/C19.v no longer check (%s): %s" % (
-                 ", ".join(pr.get("failed_files") or ["Props/C19.v"]), (pr.get("make_log") or pr.get("log", ""))[-600:]),
+                 ", ".join(pr.get("failed_files") or ["Props/C19.v"]), proof_error(pr)),
                  {"theorem": "rocq/Props/C19.v", "failed_files": pr.get("failed_files"), "forbidden": pr.get("forbidden")},
                  no_input=(len(c.violations) == 0))
 
